@@ -264,9 +264,9 @@ def c_with(op, a, b):
               non_ascii(a) and exp and b != "", op=op)
 
 
-def c_pad(s, w, left):
+def c_pad(s, w, left, obj=False):
     exp = s + " " * max(0, w - len(s)) if left else " " * max(0, w - len(s)) + s
-    return mk("str pad %s %d %d" % (hx(s), w, 1 if left else 0), ans_s(exp),
+    return mk("str %s %s %d %d" % ("padobj" if obj else "pad", hx(s), w, 1 if left else 0), ans_s(exp),
               non_ascii(s) and len(s) < w, op="pad")
 
 
@@ -298,6 +298,11 @@ def gen_case(rng):
             i = rng.randrange(n)
             p = s[i: i + rng.randrange(1, 4)]
             s2 = s
+        elif k < 0.95:
+            # periodic pattern inside a longer periodic text: occurrences overlap by a multi-character border
+            u = rand_str(rng, 3, rng.sample(ASCII[:3] + WIDE, 2)) or "a"
+            p = (u * 3)[: len(u) * 2 + rng.randrange(0, len(u) + 1)]
+            s2 = rand_str(rng, 2) + (u * rng.randrange(2, 6))[: rng.randrange(len(p), 6 * len(u) + 1)] + rand_str(rng, 2)
         else:
             p = rand_str(rng, 2)
             s2 = s
@@ -356,7 +361,7 @@ def gen_case(rng):
         if op == "trim":
             s = rand_str(rng, 3, SPACE) + rand_str(rng, 5, SPACE + WIDE + ASCII[:3]) + rand_str(rng, 3, SPACE)
         return c_simple(op, s)
-    return c_pad(rand_str(rng, 6), rng.randrange(0, 10), rng.random() < 0.5)
+    return c_pad(rand_str(rng, 6), rng.randrange(0, 10), rng.random() < 0.5, obj=rng.random() < 0.5)
 
 
 CORPUS = [
@@ -386,6 +391,12 @@ CORPUS = [
     lambda: c_replace("éaaa", "aa", "\U0001F600"),
     lambda: c_replace("aé", "", "-"),
     lambda: c_pad("éé", 3, False),
+    lambda: c_pad("éé", 3, False, True),
+    lambda: c_pad("\U0001F600", 4, True, True),
+    lambda: c_find("abab", "abababab"),
+    lambda: c_find("éaéa", "éaéaéaéa"),
+    lambda: c_find("aab", "aabaabaab"),
+    lambda: c_find("\U0001F600a\U0001F600a", "\U0001F600a\U0001F600a\U0001F600a\U0001F600"),
     lambda: c_pad("\U0001F600", 3, True),
     lambda: c_char(("-0.5", "frac", 0)),
 ]
@@ -525,6 +536,10 @@ def run(rep):
         cases += exhaustive(4, ["a", "é", "\U0001F600"], ["a", "aa", "aéa", "é", "\U0001F600\U0001F600"])
     else:
         cases += exhaustive(3, ["a", "é"], ["aa", "éaé"])
+        for L in range(4, 9):
+            for tup in itertools.product(["a", "é"], repeat=L):
+                for p in ("aéaé", "éaéa", "aéa", "aaé"):
+                    cases.append(c_find(p, "".join(tup)))
     # dedupe by line, keep order
     seen, uniq = set(), []
     for c in cases:
